@@ -1,22 +1,33 @@
 (* C16: what mxj adds on top of encoding/json, the Writer forms and the Maps forms. *)
 From Mxj Require Import Model.EncForms Spec.Veq.
 
-(* Map.Json depends on the Map only through the bytes json.Marshal returned *)
-Lemma map_json_of_bytes safe r r' : r = r' -> map_json safe r = map_json safe r'.
+(* Map.Json depends on the Map only through the bytes the encoder wrote *)
+Lemma map_json_of_bytes r r' : r = r' -> map_json r = map_json r'.
 Proof. intros ->. reflexivity. Qed.
 
-Lemma json_post_safe b : json_post true b = b.
-Proof. reflexivity. Qed.
+(* ... and returns them without the newline Encoder.Encode appends *)
+Lemma trim_suffix_nl_app b : trim_suffix_nl (b ++ [nl]) = b.
+Proof. unfold trim_suffix_nl. rewrite rev_app_distr. cbn [rev app]. rewrite rev_involutive. reflexivity. Qed.
+
+Lemma map_json_encoded b : map_json (Ok (b ++ [nl])) = Ok b.
+Proof. cbn [map_json]. rewrite trim_suffix_nl_app. reflexivity. Qed.
+
+Lemma map_json_indent_spec indent b : map_json_indent indent (Ok (b ++ [nl])) = indent b.
+Proof. unfold map_json_indent. rewrite map_json_encoded. reflexivity. Qed.
 
 Section Json.
-(* the environment: encoding/json writes map keys in sorted order, so its output does not depend on
-   the order in which a Go map hands out its entries *)
-Variable marshal : value -> res str.
-Hypothesis marshal_order_free : forall v v', wf v -> veq v v' -> marshal v = marshal v'.
+(* the environment: encoding/json writes map keys in sorted order, so what the encoder writes does not
+   depend on the order in which a Go map hands out its entries *)
+Variable encode : bool -> value -> res str.
+Hypothesis encode_order_free : forall safe v v', wf v -> veq v v' -> encode safe v = encode safe v'.
 
 Lemma map_json_perm_invariant safe v v' :
-  wf v -> veq v v' -> map_json safe (marshal v) = map_json safe (marshal v').
-Proof. intros Hwf Hveq. rewrite (marshal_order_free v v' Hwf Hveq). reflexivity. Qed.
+  wf v -> veq v v' -> map_json (encode safe v) = map_json (encode safe v').
+Proof. intros Hwf Hveq. rewrite (encode_order_free safe v v' Hwf Hveq). reflexivity. Qed.
+
+Lemma map_json_indent_perm_invariant indent safe v v' :
+  wf v -> veq v v' -> map_json_indent indent (encode safe v) = map_json_indent indent (encode safe v').
+Proof. intros Hwf Hveq. rewrite (encode_order_free safe v v' Hwf Hveq). reflexivity. Qed.
 End Json.
 
 (* ---------------- writers ---------------- *)
@@ -63,14 +74,9 @@ Theorem maps_xml_string_error (xs : list str) e rest :
 Proof. unfold maps_xml_string. rewrite maps_concat_nosep_err. reflexivity. Qed.
 
 (* JsonString(safe) is the concatenation of the per-Map Json(safe) encodings *)
-Theorem maps_json_string_concat safe (bs : list str) :
-  maps_json_string safe (map Ok bs) = (concat (map (json_post safe) bs), None).
-Proof.
-  unfold maps_json_string. rewrite map_map. cbn [map_json].
-  rewrite <- (map_map (json_post safe) Ok). apply maps_concat_nosep_ok.
-Qed.
-
-Definition lt_doc : str := s "{""a"":""" ++ bs ++ s "u003c""}".    (* what json.Marshal returns for {"a":"<"} *)
+Theorem maps_json_string_concat safe (js : bool -> list (res str)) (xs : list str) :
+  js safe = map Ok xs -> maps_json_string safe js = (concat xs, None).
+Proof. intro H. unfold maps_json_string. rewrite H. apply maps_concat_nosep_ok. Qed.
 
 (* JsonStringIndent(p, i, safe) is the per-Map JsonIndent(p, i, safe) encodings JOINED by a newline *)
 Lemma join_go sep (xs : list str) :
@@ -84,21 +90,20 @@ Proof.
     rewrite <- (IH y). reflexivity.
 Qed.
 
-Theorem maps_json_string_indent_join safe (bs : list str) :
-  maps_json_string_indent safe (map Ok bs) = (join [ascii_of_nat 10] (map (json_post safe) bs), None).
+Theorem maps_json_string_indent_join safe (ji : bool -> list (res str)) (xs : list str) :
+  ji safe = map Ok xs -> maps_json_string_indent safe ji = (join [nl] xs, None).
 Proof.
-  unfold maps_json_string_indent. rewrite map_map. cbn [map_json].
-  rewrite <- (map_map (json_post safe) Ok). rewrite maps_concat_ok. cbn [app]. rewrite join_go. reflexivity.
+  intro H. unfold maps_json_string_indent. rewrite H, maps_concat_ok. cbn [app]. rewrite join_go. reflexivity.
 Qed.
 
 (* ... hence NOT their concatenation as soon as there are two documents *)
 Theorem maps_json_string_indent_refuted :
-  exists bs, maps_json_string_indent false (map Ok bs) <> (concat (map (json_post false) bs), None).
+  exists xs, maps_json_string_indent false (fun _ => map Ok xs) <> (concat xs, None).
 Proof. exists [s "{}"; s "{}"]. vm_compute. discriminate. Qed.
 
-Theorem maps_json_string_indent_single safe (b : str) :
-  maps_json_string_indent safe [Ok b] = (json_post safe b, None).
-Proof. unfold maps_json_string_indent. cbn. reflexivity. Qed.
+Theorem maps_json_string_indent_single safe (ji : bool -> list (res str)) (x : str) :
+  ji safe = [Ok x] -> maps_json_string_indent safe ji = (x, None).
+Proof. intro H. unfold maps_json_string_indent. rewrite H. cbn. reflexivity. Qed.
 
 Lemma maps_file_ok x : maps_file (x, None) = (Some x, None).
 Proof. reflexivity. Qed.
